@@ -47,6 +47,7 @@ TraceReset == /\ IsEvent("reset")
               /\ hosts' = [n \in Nodes |-> [a \in {} |-> <<>>]]
               /\ out' = <<>> /\ tunout' = 0 /\ sends' = 0
               /\ timers' = [n \in Nodes |-> [a \in {} |-> <<>>]] /\ early' = FALSE
+              /\ bad' = [n \in Nodes |-> [a \in {} |-> {}]]
 
 TraceTunSend == /\ IsEvent("TunSend") /\ TunSend(Log[l].n, Log[l].a, Log[l].ok) /\ Match(Log[l].n, Log[l])
 TraceRetry   == /\ IsEvent("Retry")   /\ Retry(Log[l].n, Log[l].a, Log[l].k) /\ Match(Log[l].n, Log[l])
